@@ -459,9 +459,46 @@ def markFrom (cnt : Nat) (nm : String) (l : List OA) : Option (List OA) :=
 def marksDerivedM (m : Bool) (a : Attr) : Bool := a.kind == .derived || m
 def marksDerived (a : Attr) : Bool := marksDerivedM explicitRedeclMarksDerived a
 
-/-- `populateAttrList`: supertypes first; an own attribute whose name occurs among the entries added for this
-    entity's supertypes adds no entry and (when `marksDerived`) marks that entry as derived by this entity, otherwise
-    it is appended (derived when it has an initializer) -/
+/-- `populateAttrList` with the search by NAME ONLY: supertypes first; an own attribute whose name occurs among the entries
+    added for this entity's supertypes adds no entry and (when `marksDerived`) marks that entry as derived by this entity,
+    otherwise it is appended (derived when it has an initializer) -/
+def populateN (s : Schema) : Nat → String → List OA → List OA
+  | 0, _, l => l
+  | f + 1, n, l =>
+    match s.findE n with
+    | none => l
+    | some e =>
+      let cnt := l.length
+      let l1 := e.supers.foldl (fun acc sup => populateN s f sup acc) l
+      e.attrs.foldl (fun acc a =>
+        match markFrom cnt a.name acc with
+        | some acc' => if marksDerived a then acc' else acc
+        | none => acc ++ [{ name := a.name, creator := n, deriver := a.kind == .derived }]) l1
+
+/-- `isSelfOrSupertype( child, parent )` -/
+def isSelfOrSuper (s : Schema) : Nat → String → String → Bool
+  | 0, c, p => c == p
+  | f + 1, c, p =>
+    c == p || (match s.findE c with
+      | some e => e.supers.any (fun sup => isSelfOrSuper s f sup p)
+      | none => false)
+
+/-- may the entry created by `creator` be the attribute that own attribute `a` repeats?  An ordinary name: yes.  A redeclaration
+    `SELF\sup.x`: only when `creator` is `sup` or a supertype of `sup` (fix C02-8; before it: always) -/
+def creatorOK (s : Schema) (a : Attr) (creator : String) : Bool :=
+  match a.redecl with
+  | none => true
+  | some sup => !redeclSearchUsesCreator || isSelfOrSuper s (fuelOf s) sup creator
+
+/-- first entry at index ≥ `cnt` that satisfies `p`, marked -/
+def markFirstP (p : OA → Bool) : List OA → Option (List OA)
+  | [] => none
+  | x :: xs => if p x then some ({ x with deriver := true } :: xs) else (markFirstP p xs).map (x :: ·)
+
+def markFromP (cnt : Nat) (p : OA → Bool) (l : List OA) : Option (List OA) :=
+  (markFirstP p (l.drop cnt)).map (l.take cnt ++ ·)
+
+/-- `populateAttrList` as it is: the inherited attribute an own attribute repeats is found by name AND creator (`creatorOK`) -/
 def populate (s : Schema) : Nat → String → List OA → List OA
   | 0, _, l => l
   | f + 1, n, l =>
@@ -471,7 +508,7 @@ def populate (s : Schema) : Nat → String → List OA → List OA
       let cnt := l.length
       let l1 := e.supers.foldl (fun acc sup => populate s f sup acc) l
       e.attrs.foldl (fun acc a =>
-        match markFrom cnt a.name acc with
+        match markFromP cnt (fun o => o.name == a.name && creatorOK s a o.creator) acc with
         | some acc' => if marksDerived a then acc' else acc
         | none => acc ++ [{ name := a.name, creator := n, deriver := a.kind == .derived }]) l1
 
@@ -483,6 +520,10 @@ def dedupOA : List OA → List OA → List OA
 /-- the `MakeDerived( name, creator )` calls `initializeAttrs` prints into both constructors of `n` -/
 def derivedCalls (s : Schema) (n : String) : List (String × String) :=
   ((dedupOA [] (populate s (fuelOf s) n [])).filter (·.deriver)).map (fun o => (o.name, o.creator))
+
+/-- the call list under the name-only search -/
+def derivedCallsN (s : Schema) (n : String) : List (String × String) :=
+  ((dedupOA [] (populateN s (fuelOf s) n [])).filter (·.deriver)).map (fun o => (o.name, o.creator))
 
 def applyDerived (st : IState) (l : List Nat) (calls : List (String × String)) : IState :=
   calls.foldl (fun st c => match findAttr st l c.1 (some c.2) with
